@@ -76,7 +76,7 @@ def hess_signatures(ctx):
             continue
         mo, rs = cfg['method_order'], cfg['richardson_step']
         where = fd.where(fn.node)
-        for dim in (2, 3):
+        for dim in (2, 3, 4) if ctx.tier == 'quick' else (2, 3, 4, 5):
             res = facts.stencil(fn, dim)
             H = res.value
             label = 'Hessian/%s/dim=%d' % (method, dim)
@@ -90,6 +90,8 @@ def hess_signatures(ctx):
             rep.check(not unwritten and not asym, 'R-MIRROR', cfg['diff_name'], where,
                       {'cells_not_written_with_a_quotient': unwritten[:3], 'asymmetric_cells': asym[:3]},
                       'all cells written; H[b, a] is H[a, b]', label, key='mirror %s' % method)
+            if dim > 3:
+                continue          # the Taylor signatures of the cells are judged for n = 2, 3; the assembly of the matrix beyond
             for a in range(dim):
                 for b in range(a, dim):
                     cell = H[a, b]
